@@ -702,6 +702,13 @@ class Explorer:
 
     def _bindable(self, call: ast.Call, callee: FuncInfo) -> bool:
         a = callee.node.args
+        if callee.is_abstract or callee.is_property:
+            return False
+        if callee.cls is not None and any(callee.name in sub.methods for sub in self.prog.subclasses(callee.cls)):
+            return False  # an override may be the real target
+        body = [x for x in callee.node.body if not (isinstance(x, ast.Expr) and isinstance(x.value, ast.Constant))]
+        if not body or all(isinstance(x, ast.Pass) or (isinstance(x, ast.Raise) and "NotImplemented" in unparse(x)) for x in body):
+            return False  # interface stub
         if any(isinstance(x, ast.Starred) for x in call.args) or any(kw.arg is None for kw in call.keywords):
             return False
         if a.vararg or a.kwarg:
